@@ -4,7 +4,7 @@
    A circuit is a list of described operations (gate kind + qubits); its meaning over a ring K is obtained
    from a record of gate matrices, so that the SAME circuit can be evaluated in the executable ring GQ[h]
    (parameter-free part) and in the complex numbers CR. *)
-Require Import Coq.Lists.List Coq.Arith.Arith Coq.Bool.Bool Coq.QArith.QArith.
+Require Import Coq.Lists.List Coq.Arith.Arith Coq.Bool.Bool Coq.QArith.QArith Coq.QArith.Qabs.
 Require Import OQ.Base.Ring OQ.Base.Mat OQ.Pauli.Algebra OQ.Circ.Lift OQ.Circ.Circuit.
 Import ListNotations.
 
@@ -107,3 +107,12 @@ Definition derivatives (h : list hterm) (time : Q) (steps : nat) : list (Q * opt
     let n := inject_Z (Z.of_nat steps) in
     let rep := concat_opt (map (fun tm => evolve_term_s tm (time / n)%Q 0%Z) h) in
     flat_map (fun pos => map (fun fd => (fst fd, seq_circ rep (snd fd) steps pos)) singles) (seq 0 steps).
+
+(* how time_evolution_for_term classifies a term: constant (no operators) -> empty circuit; imaginary part of the
+   coefficient above 1e-9 in absolute value -> ValueError; otherwise the real part is used *)
+Definition imag_tol : Q := 1 # 1000000000.
+Definition classify (re im : Q) (l : ops) : hterm :=
+  match l with
+  | [] => HConst
+  | _ => if Qlt_le_dec imag_tol (Qabs im) then HImag else HTerm re l
+  end.
